@@ -271,10 +271,6 @@ pub struct ScrapeExportConfig {
     ///
     /// This is done during torrent cleaning and is likely to slow down
     /// processing of requests while in progress.
-    ///
-    /// If torrents are removed to due to changes to the access list, this may
-    /// not immediately be reflected in the scrape dump, as the latter is done
-    /// before the former.
     pub enable_scrape_exports: bool,
     /// Each 'frequency' times torrent cleaning is done, export a full scrape
     ///
